@@ -71,6 +71,49 @@ def _word_order(ctx, cm_, cls, ordering, nwords=3, busword=8):
     return order, isinstance(reg, list) and len(reg) == len(csrs) and all(a is b for a, b in zip(reg, csrs))
 
 
+def bank_decode(ctx, rid, fx=None):
+    """csr_bus.CSRBank: a register is strobed / read only at its own offset of the bank's page -- the whole in-page address is compared
+    (shared with C15: the event manager's pending / enable registers must not be written by an access to another offset of the page)."""
+    if fx is None:
+        fx = fx_of(ctx, BUS, "CSRBank")
+    sel = fx.find(domain="comb", target="sel")
+    ok = len(sel) == 1 and not sel[0].guards
+    k = None
+    if ok:
+        v = sel[0].value
+        ok = isinstance(v, ast.Compare) and isinstance(v.ops[0], ast.Eq) and norm(v.comparators[0]) == "address"
+        if ok:
+            b, lo, hi = _slice(norm(v.left))
+            ok = b == "bus.adr" and hi is None and lo is not None
+            k = lo
+    ctx.ob(rid, BUS, "CSRBank", "sel = bus.adr[k:] == address", ok, "" if ok else f"sel <= {sel[0].v if sel else '?'}")
+    ok = k == "log2_int(aligned_paging)" or k == "log2_int(paging // 4)"
+    ctx.ob(rid, BUS, "CSRBank", "k = log2(paging // 4) (4 bytes per CSR word)", ok, "" if ok else f"k = {k}")
+    for strobe, src in (("re", "bus.we"), ("we", "bus.re")):
+        ds = [a for a in fx.find(domain="comb") if a.t == f"self.simple_csrs[i].{strobe}"]
+        ok = len(ds) == 1 and ds[0].v == src
+        if ok:
+            G = ds[0].eff()
+            ok = B.equivalent(G, B.from_expr(f"sel & (bus.adr[:{k}] == i)"))
+        ctx.ob(rid, BUS, "CSRBank", f"csr[i].{strobe} <- {src} under sel & (adr[:k] == i)", ok,
+               "" if ok else f"{[(a.v, a.gtext()) for a in ds]}: accesses to other addresses/banks strobe this register",
+               ds[0].line if ds else 0)
+    r = [a for a in fx.find(domain="comb") if a.t == "self.simple_csrs[i].r"]
+    ok = len(r) == 1 and r[0].v == "bus.dat_w[:self.simple_csrs[i].size]"
+    ctx.ob(rid, BUS, "CSRBank", "csr[i].r <- dat_w[:size]", ok, "" if ok else f"{[a.v for a in r]}")
+    dr = fx.find(domain="sync", target="bus.dat_r")
+    zero = [a for a in dr if a.v == "0"]
+    word = [a for a in dr if a.v == "self.simple_csrs[i].w"]
+    ok = len(zero) == 1 and not zero[0].guards and len(word) == 1 and len(dr) == 2
+    if ok:
+        ok = fx.assigns.index(zero[0]) < fx.assigns.index(word[0]) and \
+            q.EQ(word[0], B.from_expr(f"sel & (bus.adr[:{k}] == i)"))
+    ctx.ob(rid, BUS, "CSRBank", "dat_r: zero first, then the addressed word under sel (registered)", ok,
+           "" if ok else f"{[(a.v, a.gtext()) for a in dr]}: a bank that is not addressed would not drive zero onto the OR-combined bus",
+           word[0].line if word else 0)
+    return k
+
+
 def word_loop_order(ctx, rid, classes=("CSRStorage", "CSRStatus")):
     """Compound registers create (= map to ascending addresses, and iterate last) their words most-significant first for 'big', least
     significant first for 'little', and register every one (shared with C15: EventManager.pending is a multi-word CSRStatus whose
@@ -276,41 +319,7 @@ def run(ctx):
     fx = fx_of(ctx, BUS, "CSRBank")
     fail_closed(ctx, fx, "CSRBank")
     prio(ctx, "PRIO", fx, "CSRBank")
-    sel = fx.find(domain="comb", target="sel")
-    ok = len(sel) == 1 and not sel[0].guards
-    k = None
-    if ok:
-        v = sel[0].value
-        ok = isinstance(v, ast.Compare) and isinstance(v.ops[0], ast.Eq) and norm(v.comparators[0]) == "address"
-        if ok:
-            b, lo, hi = _slice(norm(v.left))
-            ok = b == "bus.adr" and hi is None and lo is not None
-            k = lo
-    ctx.ob("R1", BUS, "CSRBank", "sel = bus.adr[k:] == address", ok, "" if ok else f"sel <= {sel[0].v if sel else '?'}")
-    ok = k == "log2_int(aligned_paging)" or k == "log2_int(paging // 4)"
-    ctx.ob("R1", BUS, "CSRBank", "k = log2(paging // 4) (4 bytes per CSR word)", ok, "" if ok else f"k = {k}")
-    for strobe, src in (("re", "bus.we"), ("we", "bus.re")):
-        ds = [a for a in fx.find(domain="comb") if a.t == f"self.simple_csrs[i].{strobe}"]
-        ok = len(ds) == 1 and ds[0].v == src
-        if ok:
-            G = ds[0].eff()
-            ok = B.equivalent(G, B.from_expr(f"sel & (bus.adr[:{k}] == i)"))
-        ctx.ob("R1", BUS, "CSRBank", f"csr[i].{strobe} <- {src} under sel & (adr[:k] == i)", ok,
-               "" if ok else f"{[(a.v, a.gtext()) for a in ds]}: accesses to other addresses/banks strobe this register",
-               ds[0].line if ds else 0)
-    r = [a for a in fx.find(domain="comb") if a.t == "self.simple_csrs[i].r"]
-    ok = len(r) == 1 and r[0].v == "bus.dat_w[:self.simple_csrs[i].size]"
-    ctx.ob("R1", BUS, "CSRBank", "csr[i].r <- dat_w[:size]", ok, "" if ok else f"{[a.v for a in r]}")
-    dr = fx.find(domain="sync", target="bus.dat_r")
-    zero = [a for a in dr if a.v == "0"]
-    word = [a for a in dr if a.v == "self.simple_csrs[i].w"]
-    ok = len(zero) == 1 and not zero[0].guards and len(word) == 1 and len(dr) == 2
-    if ok:
-        ok = fx.assigns.index(zero[0]) < fx.assigns.index(word[0]) and \
-            q.EQ(word[0], B.from_expr(f"sel & (bus.adr[:{k}] == i)"))
-    ctx.ob("R1", BUS, "CSRBank", "dat_r: zero first, then the addressed word under sel (registered)", ok,
-           "" if ok else f"{[(a.v, a.gtext()) for a in dr]}: a bank that is not addressed would not drive zero onto the OR-combined bus",
-           word[0].line if word else 0)
+    k = bank_decode(ctx, "R1", fx)
     # csr_bus.SRAM
     fx = fx_of(ctx, BUS, "SRAM")
     fail_closed(ctx, fx, "SRAM")
